@@ -330,11 +330,38 @@ func runC15(c *Ctx) {
 		if canon(call.Args[3]) != pMatchers {
 			badRec = "gap filling drops the block matchers"
 		}
+		// the conditions of the if statements around the call (up to the block loop), split into conjuncts:
+		// one tests that a finer resolution exists; any other may only exclude an empty gap, i.e. it must
+		// hold whenever the requested interval [arg0, arg1] is non-empty
 		g := false
-		if is, ok := enclosingIf(p, fn, call); ok && matchShape("§i+1<len(§s.resolutions)", canon(is.Cond), bind) {
-			g = true
+		var conj []ast.Expr
+		var child ast.Node = call
+		for par := p.ParentOf(fn.Pkg, call); par != nil && par != ast.Node(loop) && par != fn.Node(); par = p.ParentOf(fn.Pkg, par) {
+			if is, ok := par.(*ast.IfStmt); ok {
+				if child == ast.Node(is.Body) {
+					conj = append(conj, splitAnd(is.Cond)...)
+				} else if child != ast.Node(is.Init) && child != ast.Node(is.Cond) {
+					badRec = "a gap-filling call sits in an else branch"
+				}
+			}
+			child = par
 		}
-		if !g {
+		for _, cj := range conj {
+			if matchShape("§i+1<len(§s.resolutions)", canon(cj), bind) {
+				g = true
+				continue
+			}
+			nonEmpty := &ast.BinaryExpr{X: call.Args[0], Op: token.LEQ, Y: call.Args[1]}
+			holds, ok, cex := impliedOnSmallDomain(info, []ast.Expr{nonEmpty}, cj, 0, 5)
+			switch {
+			case !ok:
+				badRec = "the condition `" + canon(cj) + "` around a gap-filling call is not understood"
+			case !holds:
+				badRec = fmt.Sprintf("the gap [%s, %s] is not filled when `%s` is false, although it is non-empty then (e.g. %s): the instants of that gap that only finer blocks cover are lost",
+					canon(call.Args[0]), canon(call.Args[1]), canon(cj), fmtAtomEnv(cex))
+			}
+		}
+		if !g && badRec == "" {
 			badRec = "a recursive call is not guarded by the existence of a finer resolution"
 		}
 	}
